@@ -63,6 +63,16 @@ CHECKS = {
         note="Trusted: Coq kernel, extraction, driver, harness (parser of str(architecture)).",
         technique="Coq invariant proof over builder histories + exhaustive history correspondence",
         design="5/C16"),
+    "C05": dict(
+        text="Theorem C05_verdict / C05_buckets (Coq, every graph, every well-formed layered architecture - named and regex layers, unmentioned layers, any number of object layers - all 12 shapes): "
+             "the model of LayerRule.assert_applies never errs and passes exactly when the documented layer semantics (Model/SpecLayer.v) hold; layer lookup goes by whole dotted components "
+             "(C05_layer_of_member/nonmember). Proof: lowering to a strict module rule (C01's query characterisations), then the four lenient buckets, same-layer pairs dropped everywhere. "
+             "Tie to /repo: random graphs x partitions into 2-4 layers (list / str / anchored regex; modules in no layer) x 14 shapes through the real LayeredArchitecture/LayerRule API vs the model "
+             "(verdict + parsed report lines with layer tags) and vs an independent python reading of the documented semantics.",
+        note="The two any-layer aliases are covered by correspondence and the python oracle (the alias rewrite is C12_alias). Hypothesis lwf: listed (resolved) modules pairwise unrelated and existing, "
+             "layer names distinct, object layers non-empty and different from the subject. Trusted: Coq kernel, extraction, driver, harness.",
+        technique="Coq proof (reduction to strict module rule + bucket analysis) + model/implementation correspondence",
+        design="5/C05"),
     "C08": dict(
         text="Theorems (Coq, all patterns and all newline-free path strings, no bound): the glob->regex converter always emits a regex of the "
              "modelled fragment that parses back to (leading star, literal text, trailing star), and convert+re.match equals the documented "
